@@ -340,9 +340,20 @@ func c16Ties(r *RNG, j *Journal) bool {
 	return changed
 }
 
+var c16Valuations = []string{"CHF", "CHF", "CHF", "USD", "EUR", "CH2", "Ünit", "X9Y", "chf"}
+
 func c16GenCase(c *Ctx, stream string, i int, malformed bool) *c16Case {
-	r := c.Rng(stream, i)
-	val := Pick(r, []string{"CHF", "CHF", "CHF", "USD", "EUR", "CH2", "Ünit", "X9Y", "chf"})
+	lifecycle := stream == "lifecycle" || (stream == "trees" && i%3 == 1)
+	return c16GenPart(c.Rng(stream, i), stream, i, malformed, lifecycle, "")
+}
+
+// c16GenPart generates one journal; forceVal != "" fixes the valuation commodity (stream epochs: the parts of one
+// journal are valued in the same commodity).
+func c16GenPart(r *RNG, stream string, i int, malformed, lifecycle bool, forceVal string) *c16Case {
+	val := Pick(r, c16Valuations)
+	if forceVal != "" {
+		val = forceVal
+	}
 	o := JGenOpts{MaxAccounts: r.Range(2, 8), MaxDays: r.Range(1, 9), Unicode: true, BaseDay: 737000 + r.Intn(1500),
 		SpanDays: Pick(r, []int{0, 1, 5, 12, 40, 400}), ManyDecimals: r.Chance(1, 2), Prices: true, Valuation: val, ChainPrices: r.Chance(1, 3),
 		ManyPricesPerDay: r.Chance(1, 4), DupPrices: r.Chance(1, 4)}
@@ -350,7 +361,6 @@ func c16GenCase(c *Ctx, stream string, i int, malformed bool) *c16Case {
 		o.Mutate = r.Chance(1, 2)
 		o.DropPrices = r.Chance(1, 3)
 	}
-	lifecycle := stream == "lifecycle" || (stream == "trees" && i%3 == 1)
 	if lifecycle {
 		// accounts that hold positions over night, are emptied (wholly, partly, in several bookings), closed on the emptying
 		// day or later, re-opened and used again, over more days than the other streams have
@@ -465,6 +475,139 @@ func c16GenCase(c *Ctx, stream string, i int, malformed bool) *c16Case {
 	return tc
 }
 
+// ---------------------------------------------------------------- stream "epochs": journals whose days lie centuries apart
+//
+// The property speaks about every journal the syntax admits: any date from 0001-01-01 to 9999-12-31.  The other streams
+// keep to the years 2018-2033.  Here a journal is made of 1-4 independently generated parts (the generator of the main
+// stream, a third of them lifecycle journals) in the same valuation commodity whose accounts are kept apart by a last
+// segment of their own; every part is moved in time as a whole (centuries into the past or the future), stretched by
+// WidenDates (a prefix of its days to 1320-1675, a suffix to 2270-9920, order kept), or laid across a date at which some
+// representation of time ends (Unix nanoseconds in an int64, Unix seconds in an int32, the Unix epoch, years of three and
+// of four digits, the last day there is).  A part carries its own opens and prices, so the days of a part stay valid in
+// whatever order the parts are processed: a ledger whose days come out in another order than that of the calendar is
+// printed, not refused, and the monitors see it.
+//
+// (Seeded change C16-i compared days by UnixNano(): days before 1677-09-21 and after 2262-04-11 went to the wrong end.)
+
+var c16Cliffs = []struct {
+	Name    string
+	Y, M, D int
+}{
+	{"unixnano-min", 1677, 9, 21}, {"unixnano-max", 2262, 4, 11}, {"unix-epoch", 1970, 1, 1}, {"unix-int32-max", 2038, 1, 19},
+	{"unix-int32-min", 1901, 12, 13}, {"unix-uint32-max", 2106, 2, 7}, {"gregorian", 1582, 10, 15}, {"year-1000", 1000, 1, 1},
+	{"year-9999", 9999, 12, 31}, {"year-2000", 2000, 1, 1}, {"year-2100", 2100, 3, 1}, {"year-1", 1, 1, 1},
+}
+
+func c16Span(j *Journal) (lo, hi int) {
+	lo, hi = 1<<30, -1<<30
+	for _, d := range j.Dirs {
+		lo, hi = min(lo, d.Date), max(hi, d.Date)
+	}
+	return
+}
+
+func c16AddSegment(j *Journal, seg string) {
+	for i := range j.Dirs {
+		d := &j.Dirs[i]
+		if d.Account != "" {
+			d.Account += ":" + seg
+		}
+		bals := append([]JBal(nil), d.Balances...)
+		for k := range bals {
+			bals[k].Account += ":" + seg
+		}
+		d.Balances = bals
+		bks := append([]JBook(nil), d.Bookings...)
+		for k := range bks {
+			bks[k].Credit, bks[k].Debit = bks[k].Credit+":"+seg, bks[k].Debit+":"+seg
+		}
+		d.Bookings = bks
+	}
+}
+
+func c16GenEpochs(c *Ctx, i int) *c16Case {
+	const stream = "epochs"
+	r := c.Rng(stream, i)
+	val := Pick(r, c16Valuations)
+	n := Pick(r, []int{1, 2, 2, 2, 3, 3, 4})
+	tc := &c16Case{Stream: stream, Idx: i, V: val}
+	tc.Tags = append(tc.Tags, fmt.Sprintf("epochs:parts=%d", n))
+	var parts [][]JDir
+	for p := 0; p < n; p++ {
+		part := c16GenPart(c.Rng(fmt.Sprintf("%s/part%d", stream, p), i), stream, i, false, r.Chance(1, 3), val)
+		j := part.J
+		if n > 1 {
+			c16AddSegment(j, Pick(r, []string{"P", "Q", "Era", "Z"})+fmt.Sprint(p))
+		}
+		where := "ordinary"
+		if len(j.Dirs) > 0 {
+			lo, hi := c16Span(j)
+			by := 0
+			switch r.Intn(8) {
+			case 0, 1:
+			case 2:
+				by, where = -365*r.Range(345, 700), "past"
+			case 3:
+				by, where = 365*r.Range(250, 7900), "future"
+			case 4, 5:
+				if WidenDates(r, j) {
+					where = "widened"
+				}
+			default:
+				// a day of the part, or a date between two of its days, comes to lie on (or next to) the cliff
+				cl := Pick(r, c16Cliffs)
+				at := dayNum(time.Date(cl.Y, time.Month(cl.M), cl.D, 0, 0, 0, 0, time.UTC))
+				pivot := lo + r.Intn(hi-lo+1)
+				if r.Chance(1, 2) {
+					pivot = j.Dirs[r.Intn(len(j.Dirs))].Date
+				}
+				by, where = at-pivot+r.Intn(3)-1, "cliff:"+cl.Name
+			}
+			// 0001-01-01 ... 9999-12-31
+			by = max(min(by, maxDay-hi), -lo)
+			for k := range j.Dirs {
+				j.Dirs[k].Date += by
+			}
+		}
+		tc.Tags = append(tc.Tags, part.Tags...)
+		tc.Tags = append(tc.Tags, "epochs:"+where)
+		parts = append(parts, j.Dirs)
+	}
+	// the order in the file is not the order of the calendar: the parts one after the other (in any order), or dealt
+	// into one another (every part's directives in their order: which of two quotes of a day wins is the file order)
+	for k := n - 1; k > 0; k-- {
+		m := r.Intn(k + 1)
+		parts[k], parts[m] = parts[m], parts[k]
+	}
+	var all []JDir
+	if r.Chance(1, 2) {
+		for _, ds := range parts {
+			all = append(all, ds...)
+		}
+	} else {
+		left := 0
+		for _, ds := range parts {
+			left += len(ds)
+		}
+		for left > 0 {
+			k := r.Intn(left)
+			for p := range parts {
+				if k < len(parts[p]) {
+					all = append(all, parts[p][0])
+					parts[p] = parts[p][1:]
+					break
+				}
+				k -= len(parts[p])
+			}
+			left--
+		}
+		tc.Tags = append(tc.Tags, "epochs:interleaved")
+	}
+	tc.J = &Journal{Dirs: all}
+	tc.Text, _ = tc.J.Text()
+	return tc
+}
+
 func (tc *c16Case) run(c *Ctx, dir string) {
 	path := filepath.Join(dir, fmt.Sprintf("%s%d.knut", tc.Stream, tc.Idx+100000))
 	os.WriteFile(path, []byte(tc.Text), 0o644)
@@ -525,6 +668,9 @@ func c16Check(c *Ctx, bt *Batch, tc *c16Case, agreed *bool) {
 		case "sort-ties", "user-account-with-valuation-prefix", "price-chained", "price-inverse", "close", "unicode", "zero-amount", "negative-amount":
 			sig = append(sig, t[:4])
 		case "book-out", "close-on-emptying-day":
+			sig = append(sig, t)
+		}
+		if strings.HasPrefix(t, "epochs:") {
 			sig = append(sig, t)
 		}
 		if strings.HasPrefix(t, "mutated:") || strings.HasSuffix(t, "-valuation") || strings.HasSuffix(t, "-flag") || strings.HasPrefix(t, "unpriced") || t == "zero-price" {
@@ -671,7 +817,12 @@ func runC16(c *Ctx) {
 		for a := lo; a < hi; a += 5000 { // bounded memory: 5000 cases at a time
 			var cases []*c16Case
 			for i := a; i < min(a+5000, hi); i++ {
-				if c.Want(stream, i) {
+				if !c.Want(stream, i) {
+					continue
+				}
+				if stream == "epochs" {
+					cases = append(cases, c16GenEpochs(c, i))
+				} else {
 					cases = append(cases, c16GenCase(c, stream, i, malformed))
 				}
 			}
@@ -681,6 +832,9 @@ func runC16(c *Ctx) {
 			for k, tc := range cases {
 				flags[k] = true
 				c16Check(c, bt, tc, &flags[k])
+				if stream == "epochs" {
+					c.Tag(map[bool]string{true: "epochs-accepted", false: "epochs-rejected"}[tc.Code == 0])
+				}
 				if tc.Idx < 2 && stream == "transcode" {
 					c.Sample(map[string]any{"args": tc.Input()["args"], "journal": tc.Text, "stdout": tc.Stdout})
 				}
@@ -700,6 +854,7 @@ func runC16(c *Ctx) {
 	d2 := runStream("malformed", 0, n/4, true)
 	d2 = append(d2, runStream("lifecycle", 0, n/4, false)...)
 	d2 = append(d2, c16RunTrees(c, dir, 0, c.N(2000, 40000))...)
+	d2 = append(d2, runStream("epochs", 0, c.N(1500, 30000), false)...)
 	runDecStream(c, c.N(2000, 20000))
 	// directed search: when code and model differ, widen the round (3x the budget of the stream, fresh indices):
 	// the invariants are evaluated on the real output of every additional case
